@@ -8,3 +8,8 @@ CLAIMS["C02"] = (
     "Generated frame lists are written and re-read and compared with the generated data and with an independent tokenization of the written text; grammar-generated STAR texts are read and compared block by block, label by label, token by token with the independent tokenizer. Held on everything explored.",
     "Trusts the harness tokenizer (oracle.star_tokenize) as the definition of the STAR subset; numeric equality up to 1e-15 abs / 1e-13 rel (pandas.to_numeric precision).",
 )
+CLAIMS["C06"] = (
+    "property-based differential test against explicit SO(3) matrix algebra + metamorphic relations (symmetry, invariance, triangle)",
+    "Generated rotation pairs/triples from all classes (incl. near-identical, antipodal, gimbal lock; thorough: all 576 cube-rotation pairs and the whole 45-degree Euler lattice) are compared with an independent matrix oracle; normals/Euler conversions are checked through the z-axis image. Held on everything explored.",
+    "Trusts the harness matrix algebra (cross-checked once against scipy in oracle.self_test) and a 2e-5 degree tolerance derived from arccos conditioning.",
+)
